@@ -39,6 +39,7 @@ type world struct {
 	nextTag int32
 	depth2  bool
 	big     bool
+	tornAt  int // >0: with torn == true only this I/O operation (a log write) is torn
 }
 
 var bigStr = func() string {
@@ -142,6 +143,9 @@ func (w *world) crashAndCheckT(onlyAfterLastCommit bool, torn bool) {
 	if torn {
 		// the k-th write (a log write) reaches the disk only for its first `tear` bytes
 		vf.Assume(vf.FsTraceIsWrite(k, ".log"))
+		if w.tornAt > 0 && vf.FsTraceKind(0) != "" { // (the trace is visible in the engine only; the native replay gets k from the vector)
+			vf.Assume(k == w.tornAt)
+		}
 		tear = vf.Int()
 		vf.Assume(tear >= 0 && tear <= vf.FsTraceWriteLen(k))
 		vf.Cover("c01.torn")
@@ -430,4 +434,102 @@ func bigLogCheck(r3 *sysx.Real, model state) {
 		vf.Assert(ok && gv == mv, "every committed row is there with its value")
 	}
 	vf.Cover("c20.biglog")
+}
+
+// a loser whose records lie on both sides of a page allocation: two committed 1.5 KB rows, then one transaction
+// updates (or deletes) the first row and inserts a third 1.5 KB row, which makes the table grow a page; it is
+// left in flight (optionally with log and pages forced out) or aborted, or committed; crash at every point
+func VF_C02_GrowLoser() {
+	w := open(50)
+	w.big = true
+	tm := w.r.Shi.GetTransactionManager()
+	for i := 0; i < 2; i++ {
+		t := tm.Begin(nil)
+		v := vf.I32()
+		w.r.Exec(sysx.Insert("t1", []string{"tag", "v", "s"}, []types.Value{types.NewInteger(w.nextTag), types.NewInteger(v), types.NewVarchar(bigStr)}), t)
+		start := vf.FsTraceLen()
+		tm.Commit(w.r.Cat, t)
+		w.cur = w.cur.clone()
+		w.cur[w.nextTag] = v
+		w.nextTag++
+		w.commits = append(w.commits, commitRec{start, vf.FsTraceLen(), w.cur})
+	}
+	t := tm.Begin(nil)
+	work := w.cur.clone()
+	if vf.Choose(2) == 0 {
+		nv := vf.I32()
+		w.r.Exec(sysx.Update("t1", []string{"v"}, []types.Value{types.NewInteger(nv)}, sysx.Cmp("tag", expression.Equal, types.NewInteger(1), false)), t)
+		work[1] = nv
+		vf.Note("first-statement", "update")
+	} else {
+		w.r.Exec(sysx.Delete("t1", sysx.Cmp("tag", expression.Equal, types.NewInteger(1), false)), t)
+		delete(work, 1)
+		vf.Note("first-statement", "delete")
+	}
+	v3 := vf.I32()
+	w.r.Exec(sysx.Insert("t1", []string{"tag", "v", "s"}, []types.Value{types.NewInteger(3), types.NewInteger(v3), types.NewVarchar(bigStr)}), t)
+	work[3] = v3
+	vf.Assert(t.GetState() != access.ABORTED, "statements of a lone transaction are not aborted")
+	end := vf.Choose(3)
+	vf.Note("txn", "two statements across a page allocation/"+endNames[end])
+	switch end {
+	case 0:
+		start := vf.FsTraceLen()
+		tm.Commit(w.r.Cat, t)
+		w.cur = work
+		w.commits = append(w.commits, commitRec{start, vf.FsTraceLen(), work})
+	case 1:
+		tm.Abort(w.r.Cat, t)
+	case 2:
+		if vf.Choose(2) == 1 {
+			w.r.Shi.GetLogManager().Flush()
+			w.r.Shi.GetBufferPoolManager().FlushAllDirtyPages()
+			vf.Note("flush", "in-flight work flushed")
+		}
+	}
+	vf.Cover("c02.grow-loser")
+	w.crashAndCheck(false)
+}
+
+// a delete whose commit is cut inside its last log write, on a page where a lower slot is free: four committed
+// rows, the second one deleted and committed (its slot is free), then a transaction deletes the fourth row
+// and commits; the crash tears one of the log writes at a symbolic byte (e.g. between the APPLYDELETE record
+// and the COMMIT record)
+func VF_C02_Torn_DeleteAboveFreeSlot()     { tornDelete(false) }
+func VF_C02_Torn_DeleteAboveFreeSlot_Last() { tornDelete(true) } // only the last log write (the second delete's commit) is torn
+
+func tornDelete(lastOnly bool) {
+	w := open(50)
+	tm := w.r.Shi.GetTransactionManager()
+	t := tm.Begin(nil)
+	for i := 0; i < 4; i++ {
+		v := vf.I32()
+		w.r.Exec(sysx.Insert("t1", []string{"tag", "v", "s"}, []types.Value{types.NewInteger(w.nextTag), types.NewInteger(v), types.NewVarchar("s")}), t)
+		w.cur[w.nextTag] = v
+		w.nextTag++
+	}
+	start := vf.FsTraceLen()
+	tm.Commit(w.r.Cat, t)
+	w.cur = w.cur.clone()
+	w.commits = append(w.commits, commitRec{start, vf.FsTraceLen(), w.cur})
+	for _, tag := range []int32{2, 4} {
+		t = tm.Begin(nil)
+		w.r.Exec(sysx.Delete("t1", sysx.Cmp("tag", expression.Equal, types.NewInteger(tag), false)), t)
+		vf.Assert(t.GetState() != access.ABORTED, "statement of a lone transaction is not aborted")
+		start = vf.FsTraceLen()
+		tm.Commit(w.r.Cat, t)
+		w.cur = w.cur.clone()
+		delete(w.cur, tag)
+		w.commits = append(w.commits, commitRec{start, vf.FsTraceLen(), w.cur})
+	}
+	vf.Cover("c02.torn-delete")
+	if lastOnly {
+		for j := vf.FsTraceLen() - 1; j >= 0; j-- {
+			if vf.FsTraceIsWrite(j, ".log") {
+				w.tornAt = j
+				break
+			}
+		}
+	}
+	w.crashAndCheckT(false, true)
 }
